@@ -458,8 +458,59 @@ func manySmallScenario(name, kind string, upgraded bool) Scenario {
 	}}
 }
 
+// (8) C03 / C08: a candidate that falls silent (before or after its probe): the upgrade timeout closes the candidate only
+func candSilentScenario(name, kind string, probe, pendingPoll bool) Scenario {
+	return Scenario{Name: name, Run: func(t *testing.T, rec *Rec, g *Gates) {
+		cfg := EngCfg{PI: 25 * time.Second, PT: 20 * time.Second, UT: 2 * time.Second, WT: true}
+		d := newDirect(t, rec, g, cfg, "polling")
+		if d.sid == "" {
+			d.w.Finish()
+			return
+		}
+		w, sc, c := d.w, d.sc, d.c
+		if pendingPoll {
+			sc.doPoll(c)
+			sc.settle()
+		}
+		var cand *WSClient
+		if kind == "webtransport" {
+			cand = w.DialWT(c.S, nil)
+		} else {
+			cand = w.DialWS(c.S, "", nil, nil)
+		}
+		sc.settle()
+		if probe {
+			cand.SendPkt(Pkt{Type: "ping", Data: []byte("probe")})
+			sc.settle()
+		}
+		w.g.Sleep(cfg.UT + 500*time.Millisecond) // the candidate says nothing more
+		sc.settle()
+		w.Expect(d.sid, "open")
+		w.Expect(d.sid, "notupgrading")
+		// the session is fully usable on its original transport
+		go w.Send(d.sid, SendOpt{Size: 6})
+		sc.settle()
+		if c.poll == nil || c.poll.Status != 0 {
+			c.poll = nil
+			sc.doPoll(c)
+			sc.settle()
+		}
+		c.posts = append(c.posts, w.Post(c.S, []Pkt{w.ClientMsg(5, false, 0)}, ReqOpt{}))
+		sc.settle()
+		w.Expect(d.sid, "open")
+		d.finish()
+	}}
+}
+
 func directFamily() []Scenario {
 	var out []Scenario
+	for _, kind := range []string{"websocket", "webtransport"} {
+		for _, probe := range []bool{false, true} {
+			for _, pp := range []bool{false, true} {
+				out = append(out, candSilentScenario(fmt.Sprintf("candsilent_%s_p%v_pp%v", kind, probe, pp), kind, probe, pp))
+			}
+		}
+	}
 	for _, kind := range []string{"polling", "websocket", "webtransport"} {
 		for _, up := range []bool{false, true} {
 			if kind == "polling" && up {
